@@ -54,6 +54,8 @@ structure Sock where
   queue : List Dgram := []      -- kernel receive queue
   accepted : List Dgram := []   -- ghost: everything the kernel ever queued here
   events : List Ev := []        -- what was reported to the user so far
+  alive : Bool := true          -- false: the socket was closed (a foreign peer that went away); its address stays reserved
+  err : Bool := false           -- a connected socket only: an ICMP port-unreachable is pending (ECONNREFUSED)
 deriving Repr
 
 inductive Status | sent | maxPacketSizeExceeded | resourceNotFound
@@ -84,13 +86,35 @@ def kAccepts : Kind → Nat → Bool
 
 def enqueue (socks : List Sock) (dst : Nat) (d : Dgram) : List Sock :=
   socks.modify dst (fun s =>
-    if kAccepts s.kind d.src then { s with queue := s.queue ++ [d], accepted := s.accepted ++ [d] } else s)
+    if s.alive && kAccepts s.kind d.src then { s with queue := s.queue ++ [d], accepted := s.accepted ++ [d] } else s)
 
-inductive KRes | ok | emsgsize
+/-- is a socket bound (and open) at this address right now? -/
+def deliverable (socks : List Sock) (dst : Nat) : Bool :=
+  match socks[dst]? with
+  | some s => s.alive
+  | none => false
+
+def setErr (socks : List Sock) (i : Nat) (b : Bool) : List Sock := socks.modify i (fun s => { s with err := b })
+
+def hasErr (socks : List Sock) (i : Nat) : Bool :=
+  match socks[i]? with
+  | some s => s.err
+  | none => false
+
+inductive KRes | ok | emsgsize | refused
 deriving DecidableEq, Repr
 
+/-- `send_to` on an unconnected socket (a listener, a foreign peer): ICMP errors are not reported to it -/
 def kSend (kmax : Nat) (socks : List Sock) (src dst : Nat) (data : Bytes) : List Sock × KRes :=
   if data.length > kmax then (socks, .emsgsize) else (enqueue socks dst ⟨src, data⟩, .ok)
+
+/-- `send` on a connected socket (Linux): a pending ICMP error is reported by the next send, which then
+transmits nothing; a datagram for an address where nobody is bound is dropped and bounces -/
+def kSendConn (kmax : Nat) (socks : List Sock) (src dst : Nat) (data : Bytes) : List Sock × KRes :=
+  if data.length > kmax then (socks, .emsgsize)
+  else if hasErr socks src then (setErr socks src false, .refused)
+  else if deliverable socks dst then (enqueue socks dst ⟨src, data⟩, .ok)
+  else (setErr (enqueue socks dst ⟨src, data⟩) src true, .ok)
 
 /-- `recv(buf)`: the datagram cut to the buffer -/
 def kRecv (buf : Nat) (d : Dgram) : Dgram := { d with data := d.data.take buf }
@@ -101,14 +125,16 @@ def maxLen : Nat := Generated.udpMaxLocalPayloadLen
 /-- size of the stack buffer in `receive` / `accept` (`[u8; MAX_LOCAL_PAYLOAD_LEN]`) -/
 def bufLen : Nat := Generated.udpMaxLocalPayloadLen
 
-def sendPacket (kmax : Nat) (socks : List Sock) (src dst : Nat) (data : Bytes) : List Sock × Status :=
+/-- `send_packet`: `conn` = the call is `socket.send` on a connected socket, else `socket.send_to` -/
+def sendPacket (conn : Bool) (kmax : Nat) (socks : List Sock) (src dst : Nat) (data : Bytes) : List Sock × Status :=
   if data.length > maxLen then (socks, .maxPacketSizeExceeded)
-  else match kSend kmax socks src dst data with
+  else match (if conn then kSendConn kmax socks src dst data else kSend kmax socks src dst data) with
     | (s', .ok) => (s', .sent)
     | (s', .emsgsize) => (s', .maxPacketSizeExceeded)
+    | (s', .refused) => (s', .resourceNotFound)     -- `ConnectionRefused => ResourceNotFound`
 
 def record (w : World) (src dst : Nat) (data : Bytes) (r : List Sock × Status) : World × Status :=
-  ({ w with socks := r.1, log := w.log ++ [⟨src, dst, data, r.2, decide (dst < w.socks.length), true⟩] }, r.2)
+  ({ w with socks := r.1, log := w.log ++ [⟨src, dst, data, r.2, deliverable w.socks dst, true⟩] }, r.2)
 
 /-- `Driver::send(endpoint, data)` -/
 def send (w : World) (ep : Endpoint) (data : Bytes) : World × Status :=
@@ -116,8 +142,8 @@ def send (w : World) (ep : Endpoint) (data : Bytes) : World × Status :=
   | none => (w, .resourceNotFound)
   | some s =>
     match s.kind with
-    | .listener => record w ep.rid ep.addr data (sendPacket w.kmax w.socks ep.rid ep.addr data)
-    | .connected p => record w ep.rid p data (sendPacket w.kmax w.socks ep.rid p data)
+    | .listener => record w ep.rid ep.addr data (sendPacket false w.kmax w.socks ep.rid ep.addr data)
+    | .connected p => record w ep.rid p data (sendPacket true w.kmax w.socks ep.rid p data)
     | .raw => (w, .resourceNotFound)
 
 /-- a foreign socket's `send_to` -/
@@ -127,7 +153,7 @@ def rawSend (w : World) (i dst : Nat) (data : Bytes) : World :=
   | some _ =>
     let r := kSend w.kmax w.socks i dst data
     { w with socks := r.1, log := w.log ++ [⟨i, dst, data, if r.2 = .ok then .sent else .maxPacketSizeExceeded,
-                                             decide (dst < w.socks.length), false⟩] }
+                                             deliverable w.socks dst, false⟩] }
 
 /-- the event built for one received datagram -/
 def evOf (i : Nat) (k : Kind) (d : Dgram) : Ev :=
@@ -147,6 +173,38 @@ def recvLoop (i : Nat) (k : Kind) : List Dgram → List Ev
   | [] => []
   | d :: q => evOf i k (cutK k d) :: recvLoop i k q
 
+/-! ### the adapter's contract towards the driver (what M5 assumes of a Udp resource)
+
+`RemoteResource::receive` line by line, over the answers of `recv`: a datagram is handed to the
+callback and the loop goes on; `WouldBlock` ends the event; `ConnectionRefused` (an ICMP port-unreachable
+left pending by an earlier send to an absent peer) and any other error end the event as well — none of
+them reports a disconnection: a Udp resource ends only by `remove()`. -/
+
+inductive RecvAns
+  | dgram (d : Dgram)
+  | wouldBlock
+  | refused
+  | otherError
+deriving Repr
+
+inductive UdpReadStatus | waitNextEvent | disconnected
+deriving DecidableEq, Repr
+
+inductive UdpPending | ready | incomplete | disconnected
+deriving DecidableEq, Repr
+
+def remoteReceive (i : Nat) (k : Kind) : List RecvAns → List Ev × UdpReadStatus
+  | [] => ([], .waitNextEvent)
+  | .dgram d :: rest =>
+    let r := remoteReceive i k rest
+    (evOf i k (cutK k d) :: r.1, r.2)
+  | .wouldBlock :: _ => ([], .waitNextEvent)
+  | .refused :: _ => ([], .waitNextEvent)
+  | .otherError :: _ => ([], .waitNextEvent)
+
+/-- `RemoteResource::pending`: a Udp "connection" is usable at once -/
+def remotePending : UdpPending := .ready
+
 /-- a readiness event for socket `i` (or a foreign socket reading everything it has) -/
 def poll (w : World) (i : Nat) : World :=
   { w with socks := w.socks.modify i (fun s =>
@@ -161,6 +219,15 @@ def fromListener (w : World) (id addr : Nat) : Option Endpoint :=
 /-- the two assertions of `from_listener`, on the id's resource type and the transport's row -/
 def fromListenerGuard (isLocal connectionOriented : Bool) : Bool := isLocal && !connectionOriented
 
+/-- a socket is closed by its owner after reading what it had (a foreign peer going away) -/
+def close (w : World) (i : Nat) : World :=
+  let w := poll w i
+  { w with socks := w.socks.modify i (fun s => { s with alive := false }) }
+
+/-- … and bound again at the same address (the peer restarts) -/
+def reopen (w : World) (i : Nat) : World :=
+  { w with socks := w.socks.modify i (fun s => { s with alive := true }) }
+
 inductive Act
   | openListener
   | openConnected (peer : Nat)
@@ -168,6 +235,8 @@ inductive Act
   | send (ep : Endpoint) (data : Bytes)
   | rawSend (i dst : Nat) (data : Bytes)
   | poll (i : Nat)
+  | close (i : Nat)
+  | reopen (i : Nat)
 deriving Repr
 
 def step (w : World) : Act → World
@@ -177,6 +246,8 @@ def step (w : World) : Act → World
   | .send ep data => (send w ep data).1
   | .rawSend i dst data => rawSend w i dst data
   | .poll i => poll w i
+  | .close i => close w i
+  | .reopen i => reopen w i
 
 def run (w : World) (acts : List Act) : World := acts.foldl step w
 
